@@ -40,6 +40,9 @@ class Env:
     def __init__(self):
         self.sink = None           # sequential: the list of the call in progress
         self.ctl = None            # concurrent: the k3.Controller
+        self.flags = []            # oracle probes that fired (never compared with the model)
+        self.begun = []            # (tid, op) of every call begun so far, in time order
+        self.ended = []            # (tid, op, length of the log when the call returned)
 
     def emit(self, *ev):
         if self.ctl is not None:
@@ -53,13 +56,20 @@ class Env:
 
 
 class Spy:
-    """a disposable item that only logs the dispose() calls it receives"""
+    """a disposable item that only logs the dispose() calls it receives; `probe`, if set, is asked at
+    the moment of the call whether the property's side condition holds (the answer goes to env.flags,
+    which is never compared with the model)"""
 
     def __init__(self, env, ident):
         self.env, self.ident = env, ident
+        self.probe = None
 
     def dispose(self):
         self.env.yield_point()
+        if self.probe is not None:
+            bad = self.probe(self)
+            if bad:
+                self.env.flags.append(bad)
         self.env.emit("disp", self.ident)
 
     def __repr__(self):
@@ -144,8 +154,29 @@ class World:
     def ident(self, x):
         return None if x is None else getattr(x, "ident", -1)
 
+    def snapshot(self):
+        """public state of the object, read through its public API (oracle input only)"""
+        o, k = self.obj, self.kind
+        snap = {"is_disposed": bool(o.is_disposed)}
+        if k == "composite":
+            snap["held"] = [self.ident(x) for x in o.to_list()]
+        elif k in ("serial", "single", "multiple"):
+            c = o.disposable
+            snap["held"] = [] if c is None else [self.ident(c)]
+        return snap
+
     def call(self, op):
         """perform one call; observations go to env (spies) and to env.emit (results)"""
+        env, obj, k = self.env, self.obj, op[0]
+        conc = env.ctl is not None
+        tid = env.ctl.tid() if conc else 0
+        env.begun.append((tid, op))
+        try:
+            self._call(op)
+        finally:
+            env.ended.append((tid, op, len(env.ctl.log) if conc else -1))
+
+    def _call(self, op):
         env, obj, k = self.env, self.obj, op[0]
         conc = env.ctl is not None
         try:
@@ -202,14 +233,20 @@ class World:
                 env.emit("exc", f"{type(e).__name__}: {e}")
 
 
-def run_seq(kind, init, history, falsy=()):
-    """-> list (one per call) of lists of observations"""
+def run_seq(kind, init, history, falsy=(), snaps=None):
+    """-> list (one per call) of lists of observations; if `snaps` is a list, the public state
+    after construction and after every call is appended to it"""
     w = World(kind, init, falsy)
     outs = []
+    if snaps is not None:
+        snaps.append(w.snapshot())
     for op in history:
         w.env.sink = []
         w.call(op)
         outs.append(w.env.sink)
+        if snaps is not None:
+            w.env.sink = []            # a snapshot must not disturb the log
+            snaps.append(w.snapshot())
     return outs
 
 
@@ -414,7 +451,7 @@ def conc_run(kind, init, setup, progs, chooser, fine=False, falsy=()):
 
 CONC_MODEL = {
     "disposable": ("dop", "crun dd_start dd_act (cinit d_init (fst c)) (snd c)"),
-    "boolean": ("dop", "crun bd_start dd_act (cinit d_init (fst c)) (snd c)"),
+    "boolean": ("dop", "crun bd_start bd_act (cinit d_init (fst c)) (snd c)"),
     "scheduled": ("schop", "crun hc_start hc_act (cinit (sch_init 0%nat) (fst c)) (snd c)"),
     "composite": ("cop", "crun cc_start cc_act (cinit (c_init []) (fst c)) (snd c)"),
     "serial": ("sop", "crun sc_start (sc_act KSerial) (cinit x_init (fst c)) (snd c)"),
